@@ -807,6 +807,10 @@ theorem checkBalance_of_missing (subs : Substances σ A) (rs : List (Reaction σ
   rw [h]
   exact ⟨rfl, rfl⟩
 
+theorem constructorChecks_default (subs : Substances σ A) (rs : List (Reaction σ ρ)) (dupOk : Bool) :
+    constructorChecks true true subs rs dupOk = constructorAccepts subs rs dupOk := by
+  simp [constructorChecks, constructorAccepts]
+
 omit [CommRing A] [DecidableEq A] in
 theorem checkSubstanceKeys_iff (subs : Substances σ A) (rs : List (Reaction σ ρ)) :
     checkSubstanceKeys subs rs = true ↔ ∀ r ∈ rs, ∀ k ∈ rxnKeys r, k ∈ dkeys subs := by
